@@ -135,3 +135,29 @@ Example C03_reverse_nonvacuous :
   c03_reverse [C03Pair 3 2 0 true false; C03Pair 5 0 1 true false] 2 = C03PairOut (C03Pair 3 2 0 true false)
   /\ c03_reverse [C03Pair 3 2 0 true false; C03Pair 5 0 1 true false] 1 = C03Null.
 Proof. vm_compute. split; reflexivity. Qed.
+
+(* ---- audit round: write access through at(), set comparison, IndexPair comparison operators *)
+(* at(g).setLocal(v) / at(g).local() = v overwrites the local number of exactly the first pair with that global, or throws *)
+Theorem C03_setlocal : forall (l : list c03_pair) (g : Z) (v : N),
+  c03_gsorted l -> c03_size_ok l ->
+  c03_setlocal false l g v =
+  match find (c03s_has g) l with Some _ => (c03s_set_first g v l, C03Ok) | None => (l, C03RangeError) end.
+Proof. exact c03_setlocal_correct. Qed.
+Print Assumptions C03_setlocal.
+
+(* operator==(set, set1) (any two chunk sizes) holds exactly when both iterate the same (global, local, attribute, public) sequence *)
+Theorem C03_set_eq : forall l l1 : list c03_pair,
+  c03_set_eq l l1 = true <-> map c03s_strip l = map c03s_strip l1.
+Proof. exact c03_set_eq_strip_lemma. Qed.
+Print Assumptions C03_set_eq.
+
+Example C03_audit_ops_nonvacuous :
+  let ops := [C03Begin; C03Add 7 0 0 true; C03Add 3 1 1 false; C03End; C03SetLocal 7 5; C03SetLocal 4 9; C03Iterate;
+              C03SetEq 0; C03SetEq 1; C03SetEq 4; C03SetEq 5; C03SetEq 6; C03Cmp 0 1 7] in
+  c03_defined ops = true /\
+  snd (c03_run true false c03_init ops) =
+    [C03Ok; C03Ok; C03Ok; C03Ok; C03Ok; C03RangeError;
+     C03List [C03Pair 3 1 1 false false; C03Pair 7 5 0 true false];
+     C03Bits [true; false]; C03Bits [false; true]; C03Bits [false; true]; C03Bits [false; true]; C03Bits [true; false];
+     C03Bits [false; true; true; false; true; false; false; true; true; false; true; false]].
+Proof. vm_compute. split; reflexivity. Qed.
